@@ -19,8 +19,11 @@ RULE = (
     "line): every sequence of <= 5 (quick) / 6 (thorough) lines each choosing value A/B and one of 3 weights, later lines alternatively "
     "an empty-attribute line without a vote; the winner reported by DataIterator(checklines=10) is compared with a reference vote (sum "
     "of weights, ties to the first seen). Part 'supplied' (forms path, string, Feature list, generator x n in {1,3}): a supplied "
-    "dialect is used verbatim by DataIterator and create_db, the generator is not peeked, features carry it, feature count. Non-trivial "
-    "= a non-default dialect or n > checklines+1 (cons); a mixture where both values occur; every route and supplied execution."
+    "dialect is used verbatim by DataIterator and create_db, the generator is not peeked, features carry it, feature count. Part "
+    "'corners' (1 shard, 6 executions): six single attribute columns at the corners of the inference rules (a repeated key whose first "
+    "occurrence has no value, GFF3 and GTF; '=' inside quoted GTF values; quoted values under key=value); helpers.infer_dialect must "
+    "report the stated keys (repeated keys, fmt, keyval separator, quoting, trailing semicolon). Non-trivial = a non-default dialect or "
+    "n > checklines+1 (cons); a mixture where both values occur; every route, supplied and corners execution."
 )
 ASSUMPTIONS = [
     "the peek window is read as 'checklines' or 'checklines+1' features (the statement does not pin it down): both readings of 'order' are accepted",
